@@ -59,6 +59,41 @@ Proof.
       * inversion He; subst. eapply pres_settle; eauto.
       * eapply pres_callbacks; [|exact He]. eapply pres_settle; eauto.
 Qed.
+(* the state the last post_process call of a successful eat_chunk was made on satisfies P *)
+Lemma settle_last_P : forall fuel known (s s' : ist X),
+  P s -> settle fuel F c known s = (s', None) ->
+  (s' = s /\ new_names known (i_regs s) = []) \/
+  (exists sa, P sa /\ f_post F sa = (s', None) /\ new_names (ids (i_regs sa)) (i_regs s') = []).
+Proof.
+  induction fuel as [|fuel IH]; intros known s s' HP H; cbn [settle] in H.
+  - destruct (new_names known (i_regs s)) eqn:Hn; inversion H; subst. left. auto.
+  - destruct (new_names known (i_regs s)) as [|n0 new] eqn:Hn; [inversion H; subst; left; auto|].
+    destruct (do_capture (n0 :: new) c s) as [s1 [e1|]] eqn:Hc; [discriminate|].
+    pose proof (pres_do_capture _ _ _ _ HP Hc) as HP1.
+    destruct (f_post F s1) as [s2 [e2|]] eqn:Hp; [discriminate|].
+    pose proof (Ppost _ _ _ HP1 Hp) as HP2.
+    destruct (IH _ _ _ HP2 H) as [[-> Hnn]|Hr].
+    + right. exists s1. auto.
+    + right. exact Hr.
+Qed.
+
+Theorem eat_last_post_P s s' :
+  P0 s -> eat_chunk F s c = (s', None) ->
+  exists sa s3 names, P sa /\ f_post F sa = (s3, None) /\ new_names (ids (i_regs sa)) (i_regs s3) = [] /\
+                      run_callbacks F names s3 = (s', None) /\ i_fin s = false.
+Proof.
+  intros H0 He. unfold eat_chunk, do_capture in He. cbn [set_pos i_fin i_regs i_pos] in He.
+  destruct (i_fin s) eqn:Hfin; [discriminate|].
+  pose proof (Pfirst s H0 Hfin) as H1.
+  set (s1 := set_regs (set_pos s (i_pos s + flen c)) (capture_regs [] c (i_pos s + flen c) (i_regs s))) in *.
+  destruct (f_post F s1) as [s2 [e2|]] eqn:Hp; [discriminate|].
+  pose proof (Ppost _ _ _ H1 Hp) as H2.
+  destruct (settle eat_fuel F c (ids (i_regs s)) s2) as [s3 [e3|]] eqn:Hs; [discriminate|].
+  destruct (settle_last_P _ _ _ _ H2 Hs) as [[-> Hnn]|(sa & HPa & Hpa & Hna)].
+  - exists s1, s2, (newly_complete (complete_ids (i_regs s)) (i_regs s2)). repeat split; auto.
+    subst s1. cbn [set_regs i_regs]. rewrite capture_regs_ids. exact Hnn.
+  - exists sa, s3, (newly_complete (complete_ids (i_regs s)) (i_regs s3)). repeat split; auto.
+Qed.
 End Pres.
 
 (* the common case: one predicate on states, any chunk *)
@@ -259,6 +294,59 @@ Proof.
     cbn [region_of_spec r_id]. intros Hin. specialize (Hlt _ Hin). lia. }
   rewrite Hnil in Hin. exact Hin.
 Qed.
+
+(* ------------------------------------------------------------------ well-formed dictionaries: fresh identities, unique names *)
+Definition wf {X} (s : ist X) : Prop := ids_lt s /\ NoDup (map fst (i_regs s)).
+
+Lemma wf_pos {X} (s : ist X) p : wf s -> wf (set_pos s p).
+Proof. intros [H1 H2]. split; [apply ids_lt_pos; exact H1 | exact H2]. Qed.
+Lemma wf_ext {X} (s : ist X) x : wf s -> wf (set_ext s x).
+Proof. intros [H1 H2]. split; [apply ids_lt_ext; exact H1 | exact H2]. Qed.
+Lemma wf_capture {X} (s : ist X) only c pos : wf s -> wf (set_regs s (capture_regs only c pos (i_regs s))).
+Proof. intros [H1 H2]. split; [apply ids_lt_capture; exact H1 | cbn [set_regs i_regs]; rewrite capture_regs_names; exact H2]. Qed.
+Lemma wf_new_region {X} n sp (s s' : ist X) e : wf s -> new_region n sp s = (s', e) -> wf s'.
+Proof.
+  intros [H1 H2] Hn. split; [eapply ids_lt_new_region; eauto|].
+  unfold new_region, has_region, rhas in Hn. destruct (rget n (i_regs s)) eqn:Hg; inversion Hn; subst; [exact H2|].
+  cbn [i_regs]. rewrite map_app. cbn [map fst]. apply NoDup_snoc; [exact H2 | apply rget_None_notin; exact Hg].
+Qed.
+Lemma wf_delete_region {X} n (s s' : ist X) e : wf s -> delete_region n s = (s', e) -> wf s'.
+Proof.
+  intros [H1 H2] Hd. split; [eapply ids_lt_delete_region; eauto|].
+  unfold delete_region in Hd. destruct (has_region n s); inversion Hd; subst; [|exact H2].
+  cbn [set_regs i_regs]. apply rdel_NoDup. exact H2.
+Qed.
+Lemma wf_add_check {X} k (s s' : ist X) e : wf s -> add_check k s = (s', e) -> wf s'.
+Proof. intros H Ha. unfold add_check in Ha. destruct (mem_cname k (i_checks s)); inversion Ha; subst; exact H. Qed.
+Lemma wf_rset {X} (s : ist X) n m m' :
+  wf s -> rget n (i_regs s) = Some m -> r_id m' = r_id m -> wf (set_regs s (rset n m' (i_regs s))).
+Proof. intros [H1 H2] Hg Hi. split; [eapply ids_lt_rset; eauto | cbn [set_regs i_regs]; rewrite rset_names; exact H2]. Qed.
+Lemma wf_finish {X} (s : ist X) : wf s -> wf (finish s).
+Proof. intros [H1 H2]. split; [apply ids_lt_finish; exact H1 | unfold finish; cbn [i_regs]; rewrite map_map; exact H2]. Qed.
+
+Lemma init_regs_names k l : map fst (init_regs k l) = map fst l.
+Proof. revert k. induction l as [|[n sp] t IH]; intros k; cbn [init_regs map fst]; [reflexivity|]. rewrite IH. reflexivity. Qed.
+Lemma wf_init {X} (F : fmt X) : NoDup (map fst (init_regions (f_id F))) -> wf (init_ist F).
+Proof. intros H. split; [apply ids_lt_init|]. unfold init_ist. cbn [i_regs]. rewrite init_regs_names. exact H. Qed.
+
+(* a region whose identity is not below [k] is new with respect to identities below [k] *)
+Definition fresh_in (k : nat) (l : regions) : Prop := exists p, In p l /\ (k <= r_id (snd p))%nat.
+Lemma fresh_new_names known k l : (forall id, In id known -> (id < k)%nat) -> fresh_in k l -> new_names known l <> [].
+Proof.
+  intros Hk ([n r] & Hin & Hid) Hnil. cbn [snd] in Hid.
+  assert (H : In n (new_names known l)).
+  { apply new_names_In. exists r. split; [exact Hin|]. intros Hi. specialize (Hk _ Hi). lia. }
+  rewrite Hnil in H. exact H.
+Qed.
+
+Lemma new_region_none {X} n sp (s s' : ist X) : new_region n sp s = (s', None) ->
+  i_regs s' = i_regs s ++ [(n, region_of_spec (i_next s) sp)] /\ i_next s' = S (i_next s).
+Proof. unfold new_region. destruct (has_region n s); intros H; inversion H; subst. split; reflexivity. Qed.
+Lemma add_check_none {X} k (s s' : ist X) : add_check k s = (s', None) -> i_regs s' = i_regs s /\ i_next s' = i_next s.
+Proof. unfold add_check. destruct (mem_cname k (i_checks s)); intros H; inversion H; subst. split; reflexivity. Qed.
+Lemma delete_region_none {X} n (s s' : ist X) : delete_region n s = (s', None) ->
+  i_regs s' = rdel n (i_regs s) /\ i_next s' = i_next s.
+Proof. unfold delete_region. destruct (has_region n s); intros H; inversion H; subst. split; reflexivity. Qed.
 
 (* ------------------------------------------------------------------ the quiescent step *)
 Lemma capture_noop only c pos l :
